@@ -301,24 +301,19 @@ func checkMain(args []string) int {
 				resMu.Unlock()
 				return
 			}
-			ff := filepath.Join(scratch, "frontier_"+s.Fn+".json")
-			ro := runWorker(s, "p1", "-frontier", strconv.Itoa(4*split), "-frontier-file", ff)
-			resMu.Lock()
-			results = append(results, ro)
-			resMu.Unlock()
-			if ro.err != "" {
-				return
-			}
-			fb, err := os.ReadFile(ff)
-			if err != nil || strings.TrimSpace(string(fb)) == "null" || strings.TrimSpace(string(fb)) == "[]" {
-				return
-			}
+			qdir := filepath.Join(scratch, "queue_"+s.Fn)
+			os.MkdirAll(qdir, 0o755)
+			os.WriteFile(filepath.Join(qdir, "p_init.json"), []byte("[[]]"), 0o644)
 			var wg3 sync.WaitGroup
 			for i := 0; i < split; i++ {
 				wg3.Add(1)
 				go func(i int) {
 					defer wg3.Done()
-					r := runWorker(s, fmt.Sprintf("p2_%d", i), "-frontier-file", ff, "-share", fmt.Sprintf("%d/%d", i, split), "-traces", "0")
+					tr := "0"
+					if i == 0 {
+						tr = "3"
+					}
+					r := runWorker(s, fmt.Sprintf("q%d", i), "-queue", qdir, "-worker-id", strconv.Itoa(i), "-traces", tr)
 					resMu.Lock()
 					results = append(results, r)
 					resMu.Unlock()
